@@ -70,6 +70,7 @@ def main():
     ap = argparse.ArgumentParser()
     ap.add_argument('--only')
     ap.add_argument('--runs', type=int)
+    ap.add_argument('--merge', action='store_true')
     ap.add_argument('--out', default=os.path.join(VERIF, 'selftest', 'sensitivity_result.json'))
     a = ap.parse_args()
     patches = sorted(glob.glob(os.path.join(VERIF, 'selftest', 'mutants', '*.patch')))
@@ -82,6 +83,12 @@ def main():
         line = r['mutant'] + ': ' + (r.get('error') or ', '.join('%s=%s(%ss, %d runs%s)%s' % (k, 'CAUGHT' if v['caught'] else 'MISSED exit=%d' % v['exit'], v['wall_s'], v.get('violating_runs', 0), ', FRAGILE' if v['caught'] and v.get('violating_runs', 0) <= 2 else '', v['signatures'][:2]) for k, v in r['results'].items()))
         print(line, flush=True)
         missed += sum(1 for v in r['results'].values() if not v['caught']) + (1 if r.get('error') else 0)
+    if a.merge and os.path.exists(a.out):
+        # re-run of a few mutants after a workload change: replace their entries in the existing result
+        old = {r['mutant']: r for r in json.load(open(a.out))}
+        old.update({r['mutant']: r for r in allres})
+        allres = [old[k] for k in sorted(old)]
+        missed = sum(sum(1 for v in r['results'].values() if not v['caught']) + (1 if r.get('error') else 0) for r in allres)
     with open(a.out, 'w') as f:
         json.dump(allres, f, indent=1)
     print('mutants=%d missed=%d' % (len(allres), missed))
